@@ -240,4 +240,41 @@ theorem loss_duration_saturates :
 
 example : SilkPlcGains.celtLossRun 9990 [some 3, some 0, some 3, none, some 2] = 4 := by decide
 
+/-- Which concealment a lost CELT frame gets (celt_decoder.c:639, :691, :1098, :1552; the threshold
+    and the `skip_plc` values are observed on the built decoder on every run).
+    (1) A lost frame is concealed by the pitch-based PLC iff `loss_duration < 40` (fewer than 100 ms
+        concealed so far), the start band is 0 (CELT-only mode) and `skip_plc` is clear; otherwise by
+        the noise PLC — "noise PLC from 40 on", and always in hybrid mode.
+    (2) Over a whole loss burst in CELT-only mode starting with `skip_plc` clear, frame `j` gets the
+        pitch PLC exactly while the loss duration accumulated before it is below 40.
+    (3) Noise concealment is sticky: it sets `skip_plc`, which forces noise concealment for further
+        losses and survives one decoded frame after a loss; two consecutive decoded frames clear it;
+        init / reset set it (no pitch PLC before two packets have been decoded). -/
+theorem plc_kind :
+    (∀ (s : SilkPlcGains.CeltPlc) (start : Int),
+      (SilkPlcGains.celtLostKind s start = .pitch ↔ s.ld < 40 ∧ start = 0 ∧ s.skip = false) ∧
+      (SilkPlcGains.celtLostKind s start = .noise ↔ 40 ≤ s.ld ∨ start ≠ 0 ∨ s.skip = true)) ∧
+    (∀ (lms : List Nat) (s : SilkPlcGains.CeltPlc), (∀ lm ∈ lms, lm < 4) → 0 ≤ s.ld ∧ s.ld ≤ 10000 →
+      (s.skip = true → 40 ≤ s.ld) →
+      (SilkPlcGains.celtPlcRun s (lms.map (fun lm => SilkPlcGains.CeltEv.lost lm 0))).2 = SilkPlcGains.burstKinds s.ld lms) ∧
+    (∀ (s : SilkPlcGains.CeltPlc) (start : Int) (lm : Nat),
+      (SilkPlcGains.celtLostKind s start = .noise → (SilkPlcGains.celtLost s start lm).skip = true) ∧
+      (s.skip = true → SilkPlcGains.celtLostKind s start = .noise) ∧
+      (s.skip = true → s.ld ≠ 0 → (SilkPlcGains.celtGood s lm).skip = true)) ∧
+    (∀ (s : SilkPlcGains.CeltPlc) (a b : Nat), a < 4 → (SilkPlcGains.celtGood (SilkPlcGains.celtGood s a) b).skip = false) ∧
+    SilkPlcGains.celtReset.skip = true :=
+  ⟨fun s start => ⟨SilkPlcGains.celtLostKind_pitch_iff s start, SilkPlcGains.celtLostKind_noise_iff s start⟩,
+   SilkPlcGains.celt_burst_kinds,
+   SilkPlcGains.celt_skip_sticky,
+   fun s a b ha => (SilkPlcGains.celt_two_good s a b ha).1,
+   rfl⟩
+
+/-- Non-vacuity: after two decoded frames, a burst of 20 ms CELT frames gets five pitch-concealed frames
+    (loss durations 0, 8, …, 32) and noise from the sixth on; after one decoded frame the next loss is
+    still noise, after two it is pitch again. -/
+example : (SilkPlcGains.celtPlcRun SilkPlcGains.celtReset
+    [.good 3, .good 3, .lost 3 0, .lost 3 0, .lost 3 0, .lost 3 0, .lost 3 0, .lost 3 0, .lost 3 0,
+     .good 3, .lost 3 0, .good 3, .good 3, .lost 3 0]).2 =
+    [.pitch, .pitch, .pitch, .pitch, .pitch, .noise, .noise, .noise, .pitch] := by decide
+
 end OpusProps.C09
